@@ -268,8 +268,19 @@ def oracle(case, obs, obs_forced=None):
     for f in case['files']:
         for it in G.code_items(f):
             owner[it[1]] = f['name']
+    # the root *file* may also be instantiated by the loader (a template loaded earlier includes it)
+    via_loader = set()
+    for h in case.get('history', []):
+        via_loader |= set(G.reachable({'files': [fm[h]] + [f for f in case['files'] if f['name'] != h]}))
+    for n in G.reachable(case)[1:]:
+        via_loader |= set(G.reachable({'files': [fm[n]] + [f for f in case['files'] if f['name'] != n]}))
+
     def gov(name):
-        return g_root if name == rootname else g_inc
+        if name != rootname:
+            return g_inc
+        if rootname in via_loader and g_root is False:
+            return g_inc
+        return g_root
 
     def bad(what, expected, observed):
         return {'case': case, 'what': what, 'expected': expected, 'observed': observed}
@@ -510,7 +521,67 @@ def search(ctx, res, broken):
     return found
 
 
+def valid_case(case):
+    """is this a well-formed case (the shrinker deletes list elements and characters blindly)"""
+    try:
+        cfg, root, files = case['cfg'], case['root'], case['files']
+        if cfg['tmpl'] not in G.REQS or cfg['loader'] not in G.REQS or not isinstance(cfg['auto_reload'], bool):
+            return False
+        o = cfg['opt']
+        if o[0] not in ('absent', 'bool', 'str', 'int', 'none') or len(o) != (1 if o[0] in ('absent', 'none') else 2):
+            return False
+        if not files:
+            return False
+        names = set()
+        for f in files:
+            if f['syn'] not in G.CLASSES or not re.match(r'^f\d+%s$' % re.escape(G.EXT[f['syn']]), f['name']):
+                return False
+            names.add(f['name'])
+        if len(names) != len(files):
+            return False
+        fm = G.file_map(case)
+        for f in files:
+            places = {'markup': G.PLACES_MARKUP, 'newtext': G.PLACES_TEXT, 'oldtext': ['top']}[f['syn']]
+            for it in f['items']:
+                if it[0] in ('text', 'expr'):
+                    if len(it) != 2 or not isinstance(it[1], int):
+                        return False
+                elif it[0] == 'code':
+                    if len(it) != 3 or not isinstance(it[1], int) or it[2] not in places:
+                        return False
+                elif it[0] == 'incl':
+                    if len(it) != 4 or it[1] not in fm or not isinstance(it[3], bool):
+                        return False
+                    if G.child_syn(f['syn'], it[2]) != fm[it[1]]['syn'] or (it[3] and f['syn'] == 'oldtext'):
+                        return False
+                else:
+                    return False
+        syn = files[0]['syn']
+        k = root['kind']
+        if k == 'direct':
+            if root['src'] not in ('str', 'bytes', 'file', 'stream') or not isinstance(root['own_loader'], bool):
+                return False
+            if root['src'] == 'stream' and syn != 'markup':
+                return False
+        elif k == 'load':
+            if root['cls'] not in ('arg', 'default'):
+                return False
+        elif k in ('plugin-file', 'plugin-string'):
+            if {'markup': 'markup', 'text': 'oldtext', 'newtext': 'newtext'}.get(root['plugin']) != syn:
+                return False
+        else:
+            return False
+        for n in case.get('history', []):
+            if n not in fm or n == files[0]['name']:
+                return False
+        return True
+    except Exception:  # noqa
+        return False
+
+
 def replay(ctx, case):
+    if not valid_case(case):
+        return None
     os.makedirs(SCRATCH, exist_ok=True)
     _, f = judge(case)
     return f
